@@ -127,13 +127,15 @@ def body_E1(ctx):
         # assertHasAction: succeeds iff the FIRST entry matches
         first = found[0]
         tc = _TC()
-        exp_kind = ctx.choose(4, "expectation")
+        exp_kind = ctx.choose(5, "expectation")
         want_ok = first.succeeded
         sf = {"x": first.startMessage["x"]}
         if exp_kind == 1:
             want_ok = not want_ok
         elif exp_kind == 2:
             sf = {"x": "no-such-value"}
+        elif exp_kind == 4:
+            sf = {"x": first.startMessage["x"], "no_such_field": None}  # absent is not the same as None
         elif exp_kind == 3:
             later = [e for e in found[1:] if e.startMessage["x"] != first.startMessage["x"]]
             if later:
@@ -162,6 +164,11 @@ def body_E1(ctx):
         except AssertionError:
             ok = False
         ctx.check(ok, "assertHasMessage(%s) rejected the first message's own fields", mt)
+        try:
+            assertHasMessage(tc, logger, mt, {"x": exp[0]["x"], "no_such_field": None})
+            ctx.fail("assertHasMessage(%s) accepted an expected field the message does not have (expected value None)" % mt)
+        except AssertionError:
+            pass
         if len(exp) >= 2 and exp[1]["x"] != exp[0]["x"]:
             try:
                 assertHasMessage(tc, logger, mt, {"x": exp[1]["x"]})
@@ -244,7 +251,7 @@ OBLIGATIONS = [
         shards=_shards,
         twin=[{"N": 4, "D": 3, "handoff": 1, "twin_label": "repeated-types"}],
         timeout={"quick": 100, "thorough": 1200},
-        bounds={"quick": "programs <= 4 ops (one action type: every action shares it; raise/hand-off included), and <= 3 ops with 2 solver-chosen types; <= 3 ops with deferred hand-offs (sub-task logged after its parent ended); <= 4 ops mixing start_action and nested start_task of the same action type (interleaved tasks in one logger); depth <= 3; 4 expectation kinds for assertHasAction", "thorough": "<= 5 ops depth <= 4; <= 4 ops with 2 types"},
+        bounds={"quick": "programs <= 4 ops (one action type: every action shares it; raise/hand-off included), and <= 3 ops with 2 solver-chosen types; <= 3 ops with deferred hand-offs (sub-task logged after its parent ended); <= 4 ops mixing start_action and nested start_task of the same action type (interleaved tasks in one logger); depth <= 3; 5 expectation kinds for assertHasAction (matching / wrong status / wrong value / only a later entry matches / a field the message lacks expected to be None)", "thorough": "<= 5 ops depth <= 4; <= 4 ops with 2 types"},
     ),
     Ob(
         "L1",
